@@ -1,9 +1,94 @@
 import QecVerif.Model.Wire
+import QecVerif.Model.DriverApp
+import QecVerif.Model.SeededRun
+import QecVerif.Model.Memo
 namespace Qec.Drv
 open Qec Qec.Wire
 
-/-- driver ops of property C06 (first protocol token `c06`) -/
+/-! ### seeded run.
+  A raw uniform arrives already classified by the harness: symbol `2*pauli + flip`
+  (`pauli ∈ 0..3` = index of I,X,Y,Z under the error model's distribution, `flip ∈ 0..1` = its
+  class under `(1-q, q)`), so the stream is independent of which call consumes which position. -/
+
+def c06Gen (w : List Nat) : BVec :=
+  (w.map fun u => let c := u / 2; c == 1 || c == 2) ++ (w.map fun u => let c := u / 2; c == 2 || c == 3)
+
+def c06Flip (w : List Nat) : BVec := w.map fun u => u % 2 == 1
+
+def parseStream? (s : String) : Option (Array Nat) :=
+  if s == "_" then some #[] else
+  (s.toList.mapM fun c => if '0' ≤ c ∧ c ≤ '7' then some (c.toNat - '0'.toNat) else none).map List.toArray
+
+def parseTable? (s : String) : Option (List (String × Answer)) :=
+  if s == "." then some [] else
+  (s.splitOn "|").mapM fun e =>
+    match e.splitOn "=" with
+    | [k, a] => (parseAnswer? a).map fun a => (k, a)
+    | _ => none
+
+def tableDecode (tbl : List (String × Answer)) (di : DecoderInput) : Answer :=
+  match tbl.find? (fun e => e.1 == showMat di.syndrome) with
+  | some e => e.2
+  | none => .bareNone
+
+def showSeededErr : Seeded.Err → String
+  | .run k e => s!"{showRunErr e}:run:{k}"
+  | .loop e => showLoopErr e
+  | .fuel => "fuel"
+
+def showRecOut (r : Seeded.RunRecord) : String :=
+  match r.out with | .ok o => showRunOut o | .error e => showRunErr e
+
+/-! ### memo table -/
+def parsePair? (s : String) : Option (Nat × Nat) :=
+  match s.splitOn "." with
+  | [a, b] => do let a ← a.toNat?; let b ← b.toNat?; pure (a, b)
+  | _ => none
+
+def memoF (a : Nat × Nat) : Nat := 1000 * a.1 + a.2
+
+def parseMemoOp? (full : Bool) (s : String) : Option (Memo.Op (Nat × Nat) (Nat × Nat) Nat) :=
+  match s.splitOn "." with
+  | ["c", a, b] => do let a ← a.toNat?; let b ← b.toNat?; pure (.call (a, b))
+  | ["m", a, b] => do
+      let a ← a.toNat?; let b ← b.toNat?
+      pure (.mutate (if full then (a, b) else (a, 0)) (fun v => v ^^^ 1))
+  | _ => none
+
+def showAnswers (l : List (Nat × Bool)) : String :=
+  if l.isEmpty then "_" else ",".intercalate (l.map fun (v, h) => s!"{v}:{showBool h}")
+
 def c06 : List String → Option String
+  | ["run", n, t, q, mr, mf, fuel, s, l, stream, table] => do
+      let n ← parseNat? n; let t ← parseNat? t; let q ← parseBool? q
+      let mr ← parseOptNat? mr; let mf ← parseOptNat? mf; let fuel ← parseNat? fuel
+      let s ← parseMat? s; let l ← parseMat? l
+      let stream ← parseStream? stream; let tbl ← parseTable? table
+      let P : Seeded.Params Nat :=
+        { n := n, T := t, qTruthy := q, S := s, L := l, gen := c06Gen, flip := c06Flip, decode := tableDecode tbl }
+      let σ : Nat → Nat := fun i => stream.getD i 0
+      match Seeded.run P σ mr mf fuel with
+      | .error e => pure (showSeededErr e)
+      | .ok (a, F) =>
+          let errs := showMat (F.records.flatMap (·.stepErrors))
+          let meas := showMat (F.records.flatMap (·.stepMeas))
+          let outs := if F.records.isEmpty then "." else "|".intercalate (F.records.map showRecOut)
+          pure s!"{showAgg a} pos={F.pos} errs={errs} meas={meas} outs={outs}"
+  | ["memo", cap, mode, args] => do
+      let cap ← parseOptNat? cap
+      let args ← if args == "_" then some [] else (args.splitOn ",").mapM parsePair?
+      if mode == "full" then
+        let r := Memo.runHistory (Key := Nat × Nat) id memoF cap [] args
+        pure s!"{showAnswers r.1} size={r.2.length}"
+      else if mode == "fst" then
+        let r := Memo.runHistory (Key := Nat) Prod.fst memoF cap [] args
+        pure s!"{showAnswers r.1} size={r.2.length}"
+      else none
+  | ["memoops", cap, ops] => do
+      let cap ← parseOptNat? cap
+      let ops ← if ops == "_" then some [] else (ops.splitOn ",").mapM (parseMemoOp? true)
+      let r := Memo.runOps (Key := Nat × Nat) id memoF cap [] ops
+      pure s!"{showNatList r.1} size={r.2.length}"
   | _ => none
 
 end Qec.Drv
